@@ -193,6 +193,7 @@ func (m *Manager) CloseAll() error {
 				errs = append(errs, newCacheError("close", key.(string), err))
 			}
 		}
+		verifYield(401)
 		m.caches.Delete(key)
 		return true
 	})
